@@ -37,7 +37,7 @@ RULE = (
     "exactly str(mc) of MosCollection.from_files(files, allow_incomplete=-i).merge(strict=not -n) to "
     "stdout or to the -o file and returns 0/None, and returns 2 with a non-empty stderr on any error. "
     "Non-trivial = >= 3 files with a bad/unreadable one that is not last, or a non-default option.")
-ASSUMPTIONS = ['the S3 options (-b/-p/-s) run against the fake S3 of C18; -k (single key) is not exercised',
+ASSUMPTIONS = ['the S3 options (-b/-p/-s/-k) run against the fake S3 of C18',
                'inspect() output of the library is the reference for the inspect command (self-consistency)']
 MANDATORY = ['detect', 'inspect', 'merge', 'detect:s3', 'inspect:s3', 'merge:s3', 'merge:shape:completed-create', 'bad-file-not-last', 'missing-path', 'directory', 'completed-ro',
              'merge:-o', 'merge:-i', 'merge:-n', 'merge:invalid-collection', 'merge:strict-failure',
@@ -176,6 +176,17 @@ def judge_s3(case, root):
                 for k in bad:
                     if k not in err:
                         fail('bad-key-not-reported', f'{k} is invalid but stderr does not mention it')
+                # a single key (-k)
+                for k in keys[:2]:
+                    out, err, status, exc = run_cli([cmd, '-b', 'bkt', '-k', k])
+                    try:
+                        mo = MosFile.from_s3('bkt', k)
+                        line = f'{k}: {type(mo).__name__}' + (' (completed)' if mo.completed else '')
+                        if exc is not None or line not in out.splitlines():
+                            fail('single-key|stdout-differs', f'-k {k}: expected line {line!r}, stdout {out[:200]!r}')
+                    except MosRoMgrException:
+                        if exc is not None or k not in err or out.strip():
+                            fail('single-key|bad-key-not-reported', f'-k {k}: invalid key not reported: {out!r} {err!r}')
                 return fails
             exp, exp_err = None, None
             try:
